@@ -335,3 +335,18 @@ class SympyCondition(Condition):
                 # Measurements get prepended with "m_", so the condition needs to be too.
                 return f'm_{self.expr.lhs}=={self.expr.rhs}'
         raise ValueError('QASM is defined only for SympyConditions of type key == constant.')
+
+    def _qasm_(self, args: cirq.QasmArgs, **kwargs) -> str | None:
+        legacy = self.qasm  # raises ValueError for unsupported expressions
+        key_str = str(self.expr.lhs)
+        if key_str not in args.meas_key_id_map:
+            return legacy
+        key = args.meas_key_id_map[key_str]
+        target = int(self.expr.rhs)
+        bitcount = args.meas_key_bitcount.get(key, 1)
+        if bitcount > 1 and 0 <= target < 2**bitcount:
+            # Cirq reads a measurement as a big-endian integer (first measured qubit is the most
+            # significant bit) while bit i of the QASM register holds the i-th measured qubit
+            # and is the 2**i digit of the register value.
+            target = int(format(target, f'0{bitcount}b')[::-1], 2)
+        return f'{key}=={target}'
